@@ -21,18 +21,18 @@ func init() {
 
 // CCase: a container case.
 type CCase struct {
-	Prop    string     `json:"property"`
-	ID      string     `json:"id"`
-	Dir     string     `json:"dir"` // fast->std | std->fast
-	W       *WCase     `json:"w"`
-	Members []*WCase   `json:"members,omitempty"`
-	Trail   string     `json:"trail,omitempty"`
-	Flip    []int      `json:"flip,omitempty"`
-	Subst   []int      `json:"subst,omitempty"`
-	Cut     int        `json:"cut"`
-	Reads   string     `json:"reads"`
-	RSeed   uint64     `json:"rseed"`
-	Buf     int        `json:"buf,omitempty"`
+	Prop    string   `json:"property"`
+	ID      string   `json:"id"`
+	Dir     string   `json:"dir"` // fast->std | std->fast
+	W       *WCase   `json:"w"`
+	Members []*WCase `json:"members,omitempty"`
+	Trail   string   `json:"trail,omitempty"`
+	Flip    []int    `json:"flip,omitempty"`
+	Subst   []int    `json:"subst,omitempty"`
+	Cut     int      `json:"cut"`
+	Reads   string   `json:"reads"`
+	RSeed   uint64   `json:"rseed"`
+	Buf     int      `json:"buf,omitempty"`
 }
 
 func (c *CCase) knownClass() string {
